@@ -83,7 +83,7 @@ def setup() -> None:
         return False
 
     T.set_line_filter(line_filter)
-    T.install(src, line_events=True, instr_classes=[U.LRUCache])
+    T.install(src, line_events=True, instr_classes=[U.LRUCache, __import__("functools").cached_property])
     # tokenising runs on a Lexer object shared by every environment with equal options (a lazy generator the
     # parser pulls from): pre-empted inside it only in "deep" runs (a quarter of the runs)
     import jinja2.lexer as LX
